@@ -82,6 +82,12 @@ class MessageManager(interfaces.TokenInterface, interfaces.MessageManager):
             cancellable.cancel()
         self._active_exchanges = None
 
+        for mid, ack_timeout in self._piggyback_opportunities.values():
+            # Requests whose empty ACK is still pending will not be answered
+            # any more; the timer must not fire into the closed transport.
+            ack_timeout.cancel()
+        self._piggyback_opportunities = {}
+
         await self.message_interface.shutdown()
 
     #
